@@ -199,7 +199,7 @@ def rule_vacant(E, R):
                     sem.param_index(S, fl["ty"], v.frame) == 2 and \
                     (sem.param_index(S, fl["name"], v.frame) == 1 or
                      # the key handed back by the registry entry that was opened with the name
-                     any(x.node.get("k") == "MethodCall" and x.node["m"] == "entry" and _reg_field(x.node["recv"]) == "items" and
+                     any(x.node.get("k") == "MethodCall" and x.node["m"] == "entry" and _reg_field(S.resolve(x.node["recv"], x.frame).node) == "items" and
                          sem.param_index(S, x.node["args"][0], x.frame) == 1 and sem.passes_through(S, fl["name"], v.frame, x.node)
                          for x in S.sites()))
         R.check(ok, rule, fn, "registers (name, ty, optional=%s)" % str(opt).lower(), where=h["span"])
